@@ -403,7 +403,9 @@ def uniform(data: ttb.tensor, samples: int) -> sample_type:
         ).astype(int)
         - 1
     )
-    vals = data[subs]
+    # One value per sample (sptensor indexing yields a column, a single dense
+    # sample a scalar)
+    vals = np.asarray(data[subs]).reshape(-1)
     wgts = (np.prod(data.shape) / samples) * np.ones((samples,))
     return subs, vals, wgts
 
